@@ -261,6 +261,7 @@ Inductive tres := TOk (s : sql) | TReject | TCrash | TUnmod.
 
 (* EQLTranslator.translate *)
 Definition translate (sc : schema) (q : query) : tres :=
+  if q_setof q then TCrash else          (* select_like.selected_variable: AttributeError on a SetOf node (C07-k) *)
   match assoc (q_sel q) (q_vars q) with
   | None => TReject
   | Some root =>
@@ -375,7 +376,65 @@ Fixpoint nodup_z (l : list Z) : bool :=
 Definition f07 (sc : schema) (q : query) (w : world) : bool :=
   match q_vars q, q_cond q with
   | [(v, root)], Some c =>
-      (v =? q_sel q) && cond_shape sc v root c && nodup_z (map o_key w) && forallb (fun o => cond_ok sc w v root o c) (instances sc w root)
+      negb (q_setof q) && (v =? q_sel q) && cond_shape sc v root c && nodup_z (map o_key w) && forallb (fun o => cond_ok sc w v root o c) (instances sc w root)
+  | _, _ => false
+  end.
+
+(* ---------- the fragment F07J: two variables connected by equality joins ---------- *)
+(* the selected variable sel : root and one other variable v2 : c2 (a class that shares no table with root); the condition is
+   an and_/or_ tree whose leaves are F07 atoms over sel or equality joins  sel.r1 == v2.r2 / v2.r2 == sel.r1  between
+   to-one relationships.  Data: on every pair (o, t) the atoms over sel are as in F07, and on the two related entities
+   Python's == coincides with equality of the foreign keys (excludes None == None and distinct entities equal by __eq__) *)
+Definition refnull (v : val) : bool := match v with VRef _ | VNull => true | _ => false end.
+Definition is_frel (k : option fkind) : bool := match k with Some (FRel _) => true | _ => false end.
+(* (attribute on sel, attribute on v2, written with v2 on the left) *)
+Definition join_atom (sel v2 : Z) (l r : operand) : option (Z * Z * bool) :=
+  match l, r with
+  | OAttr a [x], OAttr b [y] =>
+      if (a =? sel) && (b =? v2) then Some (x, y, false)
+      else if (a =? v2) && (b =? sel) then Some (y, x, true) else None
+  | _, _ => None
+  end.
+Fixpoint cond_shape2 (sc : schema) (sel root v2 c2 : Z) (c : cond) : bool :=
+  match c with
+  | CCmp OEq l r =>
+      match join_atom sel v2 l r with
+      | Some (r1, r2, _) => is_frel (field_kind sc root r1) && is_frel (field_kind sc c2 r2)
+      | None => cond_shape sc sel root c
+      end
+  | CAnd p q | COr p q => cond_shape2 sc sel root v2 c2 p && cond_shape2 sc sel root v2 c2 q
+  | CNot _ => false
+  | _ => cond_shape sc sel root c
+  end.
+Fixpoint cond_ok2 (sc : schema) (w : world) (sel root v2 : Z) (o t : obj) (c : cond) : bool :=
+  match c with
+  | CCmp OEq l r =>
+      match join_atom sel v2 l r with
+      | Some (r1, r2, sw) =>
+          match assoc r1 (o_fields o), assoc r2 (o_fields t) with
+          | Some a, Some b =>
+              refnull a && refnull b &&
+              Bool.eqb (if sw then val_eq eq_fuel w b a else val_eq eq_fuel w a b) (tv_true (sql_eq (enc_val b) (enc_val a)))
+          | _, _ => false
+          end
+      | None => cond_ok sc w sel root o c
+      end
+  | CAnd p q | COr p q => cond_ok2 sc w sel root v2 o t p && cond_ok2 sc w sel root v2 o t q
+  | CNot _ => false
+  | _ => cond_ok sc w sel root o c
+  end.
+Fixpoint has_join (sel v2 : Z) (c : cond) : bool :=
+  match c with
+  | CCmp OEq l r => match join_atom sel v2 l r with Some _ => true | None => false end
+  | CAnd p q | COr p q => has_join sel v2 p || has_join sel v2 q
+  | _ => false
+  end.
+Definition f07j (sc : schema) (q : query) (w : world) : bool :=
+  match q_vars q, q_cond q with
+  | [(v, root); (v2, c2)], Some c =>
+      negb (q_setof q) && (v =? q_sel q) && negb (v2 =? v) && negb (related sc c2 root) && cond_shape2 sc v root v2 c2 c && has_join v v2 c &&
+      nodup_z (map o_key w) &&
+      forallb (fun o => forallb (fun t => cond_ok2 sc w v root v2 o t c) (instances sc w c2)) (instances sc w root)
   | _, _ => false
   end.
 
@@ -481,8 +540,9 @@ Definition classes (sc : schema) (q : query) (w : world) : Z :=
       + b2z ((1 <=? Z.of_nat (eqjoin_atoms c)) && ((2 <=? Z.of_nat (eqjoin_atoms c)) || existsb long_chain ops)) 256
       + b2z (has_relrel sc (q_vars q) c) 512
       + b2z (has_or_join c) 1024
+      + b2z (q_setof q) 2048
   end.
 
 (* what the harness asks per case: [model; spec; [f07; classes]] *)
 Definition case_out (sc : schema) (q : query) (w : world) : sx :=
-  SL [model_out sc q w; spec_out sc q w; SL [SB (f07 sc q w); SZ (classes sc q w)]].
+  SL [model_out sc q w; spec_out sc q w; SL [SB (f07 sc q w || f07j sc q w); SZ (classes sc q w); SB (f07j sc q w)]].
